@@ -55,6 +55,21 @@ def run(ctx):
             arg = path if cwd == "." else "s.json"
             runs.append(Run("d%d_%d" % (si, vi), {path: json.dumps(doc)}, ["-p", "pkg"] + opts + [arg], cwd=cwd))
             meta.append((si, vn))
+    # many mappings with similar ids (the id of the schema, and variants with a trailing '#', '/', other case, a prefix, a longer id),
+    # each with its own package / output / root type: which one applies must not depend on the order of the flag maps
+    ID = "http://example.com/thing"
+    msch = {"$id": ID, "type": "object", "properties": {"a": {"type": "string"}, "sub": {"type": "object", "properties": {"b": {"type": "integer"}}}}}
+    variants_id = [ID, ID + "#", ID + "/", ID.upper(), ID[:-1], ID + "2", "thing", ""]
+    base_si = len(schemas)
+    for fi, select in enumerate([(0, 1, 2, 3, 4, 5, 6, 7), (1, 0), (2, 3, 0), (4, 5), (7, 1, 6)]):
+        flags = []
+        for k in select:
+            v = variants_id[k]
+            flags += ["--schema-package", "%s=example.com/p%d" % (v, k), "--schema-output", "%s=out/f%d.go" % (v, k), "--schema-root-type", "%s=Root%d" % (v, k)]
+        schemas.append(msch)
+        for rep in range(3 * reps):
+            runs.append(Run("mp%d_%d" % (fi, rep), {"in/s.json": json.dumps(msch)}, ["-p", "example.com/dflt", "-o", "out/dflt.go"] + flags + ["in/s.json"]))
+            meta.append((base_si + fi, "mappings-%d-run-%d" % (fi, rep)))
     run_all(ctx, runs)
     by = {}
     for r, (si, vn) in zip(runs, meta):
@@ -66,8 +81,8 @@ def run(ctx):
         ref = lst[0][1]
         outs = {}
         for vn, r in lst:
-            ctx.count({"s": schemas[si], "v": vn}, True, "byte-identity/" + ("special" if si < len(SPECIAL) else "random"))
-            key = (r.status, sha(r.stdout))
+            ctx.count({"s": schemas[si], "v": vn}, True, "byte-identity/" + ("special" if si < len(SPECIAL) else ("mappings" if vn.startswith("mappings") else "random")))
+            key = (r.status, sha(r.stdout), tuple(sorted((k, sha(v)) for k, v in r.created.items())))
             outs.setdefault(key, []).append(vn)
         distinct_total += len(outs)
         if ref.status != 0 and si >= len(SPECIAL):
@@ -82,7 +97,7 @@ def run(ctx):
     ctx.cov["distinct_outputs_total"] = distinct_total
     ctx.cov["rule"] = ("5 special schemas (definition names tied under case folding / normalisation with different sub-schemas, colliding sibling properties, many imports and "
                        "constants, allOf/anyOf) + random in-guard schemas, under 5 option sets; each generated in %d separate processes: repeated runs, random and reversed key "
-                       "order inside every JSON object, moved to another directory, invoked relative to another working directory; stdout compared byte for byte; "
+                       "order inside every JSON object, moved to another directory, invoked relative to another working directory; stdout and written files compared byte for byte; 5 sets of mappings with look-alike ids (trailing #, /, case, prefix) x repeated processes; "
                        "non-trivial = every run; distinct by hash of (schema, variant)" % (2 * reps + 4))
     ctx.sample({"family": "byte-identity", "schema": schemas[0], "variants": [m[1] for m in meta[:6]], "sha": sha(runs[0].stdout)})
 
